@@ -441,12 +441,26 @@ class MetaDataReplace(MosFile):
         """
         return self.base_tag.find('roSlug').text
 
+    def _find_external_metadata(self, ro: RunningOrder, mos_schema: Optional[str]) -> Tuple[Optional[Element], Optional[int]]:
+        """
+        Find the running order's ``mosExternalMetadata`` block with the given
+        *mos_schema* and return ``(block, index)`` or ``(None, None)``
+        """
+        for i, child in enumerate(ro.base_tag):
+            if child.tag == 'mosExternalMetadata' and child.findtext('mosSchema') == mos_schema:
+                return (child, i)
+        return (None, None)
+
     def merge(self, ro: RunningOrder) -> RunningOrder:
         """
         Merge into the :class:`RunningOrder` object provided.
         """
         for source in self.base_tag:
-            target, target_index = find_child(parent=ro.base_tag, child_tag=source.tag)
+            if source.tag == 'mosExternalMetadata':
+                # only replaces the block with the same mosSchema
+                target, target_index = self._find_external_metadata(ro, source.findtext('mosSchema'))
+            else:
+                target, target_index = find_child(parent=ro.base_tag, child_tag=source.tag)
             if target is None:
                 insert_node(parent=ro.base_tag, node=source, index=len(ro.base_tag))
             else:
